@@ -1846,7 +1846,30 @@ impl ElementMut for XmlElement {
     }
 
     fn normalize(&self) {
-        todo!()
+        // DOM Level 1: afterwards no two Text nodes of the subtree are adjacent.
+        // A Text node is merged into the Text node in front of it; a pair whose
+        // concatenation is not character data ("]]" in front of ">") stays as it is.
+        let mut previous: Option<XmlText> = None;
+        for child in self.child_nodes().iter() {
+            match child {
+                XmlNode::Text(text) => {
+                    let merged = match (&previous, text.data()) {
+                        (Some(p), Ok(data)) => p.append_data(data.as_str()).is_ok(),
+                        _ => false,
+                    };
+                    if merged {
+                        let _ = self.remove_child(&text.as_node());
+                    } else {
+                        previous = Some(text);
+                    }
+                }
+                XmlNode::Element(element) => {
+                    element.normalize();
+                    previous = None;
+                }
+                _ => previous = None,
+            }
+        }
     }
 }
 
